@@ -1,6 +1,7 @@
 """C27 - node errors map to the most specific registered error class.  Spec: RpcErrors.tla."""
 import itertools, random
 
+from .. import boundary
 from ..tlaparse import iter_dump, to_json, to_tla
 
 MC = """---- MODULE RpcErrorsMC ----
@@ -83,7 +84,21 @@ def reg_class(reg, name):
     raise KeyError(name)
 
 
+def request_class(errs, kind, n):
+    """class raised by RpcNode.request when the node answers n times 500 with this error list (kind permanent: answered once; temporary: retried until exhausted)"""
+    import json as _json
+    from pytezos.rpc.node import RpcNode
+    body = _json.dumps([{'id': '.'.join(i), 'kind': kind} for i in errs])
+    boundary.reset([boundary.make_response(500, 'application/json', body) for _ in range(n)])
+    try:
+        RpcNode('http://c27.invalid').request('GET', 'chains/main/blocks/head')
+        return None, 0
+    except Exception as e:   # noqa
+        return type(e), sum(1 for ev in boundary.LOG if ev[0] == 'send')
+
+
 def run(ctx):
+    boundary.install()
     reg = registry()
     names = {}
     for k, v in reg.items():
@@ -101,6 +116,7 @@ def run(ctx):
     ctx.require_no_violation(r, 'RpcErrors')
     ctx.require_coverage(r, ['Start', 'Try'])
     keys = set(reg)
+    nreq = 0
     for st in iter_dump(r.dump):
         if st['pc'] != 'done':
             continue
@@ -110,6 +126,19 @@ def run(ctx):
         ctx.count(errs, nontrivial=st['class'] != 'RpcError')
         if ok and st['class'] != 'RpcError':
             ctx.sample({'errors': ['.'.join(e) for e in errs], 'class': st['class']}, limit=5)
+        # the same lists as answers of a node: the class raised by a request is the class of the list, whether the answer is permanent
+        # (raised at once) or transient (a list without protocol ids and with a temporary entry is retried; the last answer decides)
+        if ok and errs and st['class'] != 'RpcError' and nreq < 400:
+            nreq += 1
+            want = reg_class(reg, st['class'])
+            transient_ok = not any(e[0] == 'proto' for e in errs)
+            for kind, n in (('permanent', 1),) + ((('temporary', 12),) if transient_ok else ()):
+                got, sent = request_class(errs, kind, n)
+                ctx.count(('request', errs, kind), nontrivial=True)
+                ctx.replayed += 1
+                if got is not want:
+                    ctx.mismatch('C27:request:%s:wrong-class' % kind, 'node answers 500 with the %s errors %s (%d answers sent): the request raised %s, the class of the list is %s' % (
+                        kind, ['.'.join(e) for e in errs], sent, getattr(got, '__name__', got), want.__name__), {'errs': to_json(errs), 'class': st['class'], 'request': kind})
     # ---- classes registered later: "registered" means registered at the time of the call, also for ids that were resolved before ----
     reg2 = register_late()
     late_ids = [i for i in all_ids if 'unknown_name' in i or 'unknown_cat' in i]
@@ -150,8 +179,15 @@ def register_late():
 
 
 def replay(ctx, rep):
+    boundary.install()
     reg = registry()
     c = rep['case']
+    if c.get('request'):
+        errs = [tuple(e) for e in c['errs']]
+        got, sent = request_class(errs, c['request'], 1 if c['request'] == 'permanent' else 12)
+        want = reg_class(reg, c['class'])
+        print('REPRODUCED' if got is not want else 'NOT-REPRODUCED', 'C27:request:%s:wrong-class' % c['request'], getattr(got, '__name__', got), want.__name__)
+        return 0 if got is want else 1
     if c.get('late'):
         impl_class([tuple(e) for e in c['errs']])      # the id is resolved once before the classes exist
         reg = register_late()
